@@ -29,7 +29,7 @@ Lemma declared_bounds_named nd s name b0 :
   declared_bounds nd s = flat_map (pcontrib name) (p_items (g_params (s_gen s))) ++ flat_map (contrib name) (where_items (s_gen s)).
 Proof. intros E. unfold declared_bounds. rewrite E. reflexivity. Qed.
 
-Lemma deps_where_step_fst name b tg w : fst (deps_where_step name (b, tg) w) = b ++ contrib name w.
+Lemma deps_where_step_fst lts name b tg w : fst (deps_where_step lts name (b, tg) w) = b ++ contrib name w.
 Proof.
   unfold deps_where_step, contrib. destruct (wp_is_type w); [|cbn; rewrite app_nil_r; reflexivity].
   destruct (wp_bounded w) as [q l ns f|]; [|cbn; rewrite app_nil_r; reflexivity].
@@ -38,12 +38,12 @@ Proof.
   destruct (String.eqb f name); cbn; [reflexivity | rewrite app_nil_r; reflexivity].
 Qed.
 
-Lemma fold_where_fst name : forall ws b tg,
-  fst (fold_left (deps_where_step name) ws (b, tg)) = b ++ flat_map (contrib name) ws.
+Lemma fold_where_fst lts name : forall ws b tg,
+  fst (fold_left (deps_where_step lts name) ws (b, tg)) = b ++ flat_map (contrib name) ws.
 Proof.
   induction ws as [|w ws IH]; intros b tg; cbn [fold_left flat_map]; [rewrite app_nil_r; reflexivity|].
-  pose proof (deps_where_step_fst name b tg w) as H.
-  destruct (deps_where_step name (b, tg) w) as [b' tg']. cbn [fst] in H. subst b'.
+  pose proof (deps_where_step_fst lts name b tg w) as H.
+  destruct (deps_where_step lts name (b, tg) w) as [b' tg']. cbn [fst] in H. subst b'.
   rewrite IH, <- app_assoc. reflexivity.
 Qed.
 
@@ -79,7 +79,7 @@ Lemma find_deps_bounds tg g name d tg' :
 Proof.
   unfold find_deps_generic_bounds. intros H Hn. apply nodup_str_NoDup in Hn.
   destruct (find_type_param name (p_items (g_params g)) 0) as [[idx p]|] eqn:F; [|discriminate].
-  pose proof (fold_where_fst name (where_items g) (trait_bounds (gp_bounds p)) (push_others (p_items (g_params g)) 0 idx tg)) as Hf.
+  pose proof (fold_where_fst (life_names g) name (where_items g) (trait_bounds (gp_bounds p)) (push_others (p_items (g_params g)) 0 idx tg)) as Hf.
   destruct (fold_left _ _ _) as [b t2]. cbn [fst] in Hf. injection H as <- _. subst b.
   rewrite (find_type_param_bounds _ _ _ _ _ F Hn). reflexivity.
 Qed.
@@ -176,10 +176,13 @@ Section WhereInv.
   Lemma winv_push tg w : winv tg -> P w -> winv (tg_push_where tg w).
   Proof. unfold winv, tg_push_where, p_push. cbn [tg_where p_items]. intros H Hw. apply Forall_app. split; [exact H | constructor; [exact Hw | constructor]]. Qed.
 
-  Lemma winv_fold_push : forall ws tg, winv tg -> Forall P ws -> winv (fold_left tg_push_where ws tg).
+  Lemma winv_lift lts tg w : winv tg -> P w -> winv (lift_where lts tg w).
+  Proof. intros H Hw. unfold lift_where. destruct (mentions_lifetime lts (wp_toks w)); [exact H | apply winv_push; assumption]. Qed.
+
+  Lemma winv_fold_push lts : forall ws tg, winv tg -> Forall P ws -> winv (fold_left (lift_where lts) ws tg).
   Proof.
     induction ws as [|w ws IH]; intros tg H Hw; cbn [fold_left]; [exact H|].
-    inversion Hw; subst. apply IH; [apply winv_push; assumption | assumption].
+    inversion Hw; subst. apply IH; [apply winv_lift; assumption | assumption].
   Qed.
 
   Lemma winv_fold_params : forall ps tg, winv tg ->
@@ -195,19 +198,19 @@ Section WhereInv.
     destruct (Nat.eqb idx skip || is_life p); exact H.
   Qed.
 
-  Lemma winv_where_step name b tg w : winv tg -> P w -> winv (snd (deps_where_step name (b, tg) w)).
+  Lemma winv_where_step lts name b tg w : winv tg -> P w -> winv (snd (deps_where_step lts name (b, tg) w)).
   Proof.
-    intros H Hw. unfold deps_where_step. destruct (wp_is_type w); [|apply winv_push; assumption].
-    destruct (wp_bounded w) as [q l ns f|]; [|apply winv_push; assumption].
-    destruct (q || l); [apply winv_push; assumption|]. destruct (negb (Nat.eqb ns 1)); [apply winv_push; assumption|].
+    intros H Hw. unfold deps_where_step. destruct (wp_is_type w); [|apply winv_lift; assumption].
+    destruct (wp_bounded w) as [q l ns f|]; [|apply winv_lift; assumption].
+    destruct (q || l); [apply winv_lift; assumption|]. destruct (negb (Nat.eqb ns 1)); [apply winv_lift; assumption|].
     destruct (String.eqb f name); exact H.
   Qed.
 
-  Lemma winv_fold_step name : forall ws b tg, winv tg -> Forall P ws -> winv (snd (fold_left (deps_where_step name) ws (b, tg))).
+  Lemma winv_fold_step lts name : forall ws b tg, winv tg -> Forall P ws -> winv (snd (fold_left (deps_where_step lts name) ws (b, tg))).
   Proof.
     induction ws as [|w ws IH]; intros b tg H Hw; cbn [fold_left]; [exact H|]. inversion Hw; subst.
-    pose proof (winv_where_step name b tg w H ltac:(assumption)) as Hs.
-    destruct (deps_where_step name (b, tg) w) as [b' tg']. apply IH; assumption.
+    pose proof (winv_where_step lts name b tg w H ltac:(assumption)) as Hs.
+    destruct (deps_where_step lts name (b, tg) w) as [b' tg']. apply IH; assumption.
   Qed.
 
   Lemma winv_find tg g name d tg' :
@@ -215,7 +218,7 @@ Section WhereInv.
   Proof.
     unfold find_deps_generic_bounds. intros H Hi Hw.
     destruct (find_type_param name (p_items (g_params g)) 0) as [[idx p]|]; [|discriminate].
-    pose proof (winv_fold_step name (where_items g) (trait_bounds (gp_bounds p)) _ (winv_push_others (p_items (g_params g)) 0 idx tg Hi) Hw) as Hs.
+    pose proof (winv_fold_step (life_names g) name (where_items g) (trait_bounds (gp_bounds p)) _ (winv_push_others (p_items (g_params g)) 0 idx tg Hi) Hw) as Hs.
     destruct (fold_left _ _ _) as [b t2]. injection H as _ <-. exact Hs.
   Qed.
 
